@@ -31,13 +31,6 @@ def judge(stream, d):
 
     def add(kind, what, details):
         sig = 'C19.' + what
-        # narrow classifier of known finding F-C19-shared-tags-list (see known_findings.json)
-        if what == 'tags' and details.get('tag') == 'accepted' and details.get('expected') is False \
-                and feat.shared_accepted(d, details.get('state')):
-            sig = 'C19.shared-tags-list-accepted'
-        if what == 'error-iff' and details.get('expected_raise') is True and details.get('outcome') != 'raised' \
-                and feat.shared_accepted(d, details.get('state')):
-            sig = 'C19.shared-tags-list-accepted'
         fails.append(Failure(kind, what, case, details, signature=sig))
 
     if run.build_error:
@@ -185,14 +178,13 @@ class C19(runner.Check):
              "is an input (C01-C03 cover it). Timeout is C17's. Order-dependent combinations (failed retry or Error "
              "raise vs Volatile creation) are mirrored by the model, not judged.",
         technique="Lean 4 proof (induction over op histories, invariants) + differential correspondence + Python oracle")
-    theorems = ('TM.C19_tags', 'TM.C19_tags_built_partial', 'TM.C19_tags_built_counterexample',
-                'TM.C19_error_counterexample', 'TM.C19_error_iff', 'TM.C19_volatile_fresh', 'TM.C19_volatile_removed',
+    theorems = ('TM.C19_tags', 'TM.C19_tags_built', 'TM.C19_caller_lists_unchanged', 'TM.C19_error_iff', 'TM.C19_volatile_fresh', 'TM.C19_volatile_removed',
                 'TM.C19_volatile_history', 'TM.C19_retry_exact', 'TM.C19_retry_unlimited', 'TM.C19_per_model_frame', 'TM.C19_per_model',
                 'TM.C19_feature_free_unchanged', 'TM.C19_flat_trigger')
     rule = ('random decorated machine classes: every subset of {Tags, Error, Volatile, Retry} in random decorator order '
             '(Tags-before-Error excluded: TypeError) x {Machine, LockedMachine, HierarchicalMachine, '
             'LockedHierarchicalMachine} x 2-4 top states (hierarchical: 0-3 children each, optional initial child) x '
-            'random feature arguments per state (tags, accepted, hook name, volatile class, retries, on_failure as '
+            'random feature arguments per state (tags — occasionally one list object shared by several states —, accepted, hook name, volatile class, retries, on_failure as '
             'callable or model method name) x auto_transitions/ignore_invalid_triggers/send_event x 1-3 models x '
             'histories of 3-18 triggers with bursts of the same (reflexive) event; non-trivial = at least one completed '
             'entry and at least one feature effect (retry failure, Error raise, volatile object, tag); distinct = '
